@@ -593,11 +593,17 @@ impl<T> DataReaderEntity<T> {
                     x.last_received_time = reception_timestamp;
                 }
             }
-            None => self.instance_ownership.push(InstanceOwnership {
-                instance_handle: change_instance_handle,
-                last_received_time: reception_timestamp,
-                owner_handle: sample_writer_guid,
-            }),
+            None => {
+                // A dispose / unregister has just released the instance: recording its writer again
+                // would keep it as the owner and ownership would never pass to another writer
+                if matches!(change_kind, ChangeKind::Alive | ChangeKind::AliveFiltered) {
+                    self.instance_ownership.push(InstanceOwnership {
+                        instance_handle: change_instance_handle,
+                        last_received_time: reception_timestamp,
+                        owner_handle: sample_writer_guid,
+                    })
+                }
+            }
         }
         Ok(AddChangeResult::Added)
     }
